@@ -30,7 +30,9 @@ Require TokL InvL St Loop.
 Theorem C04_escaped_text_is_brace_neutral : forall t d, TokL.runL (enc latex_table t) (TokL.LTxt, d) = (TokL.LTxt, d).
 Proof. exact TokL.latex_escape_textual. Qed.
 (* proved for every document of a sub-language, every world and every positive nesting fuel: text lines, .Bm, .Em, .Sm
-   (any arguments), .P with or without a title, display blocks .Bd/.Ed nested to any depth, headers .Ch/.Pt/.Sh/.Ss and
+   (any arguments), .P with or without a title, .D, links .Lk with or without a label (whatever the url: the braces and
+   backslashes url.URL.String leaves in a query are percent-encoded since the repair of D28, Proofs/FragBL.latex_url_textual),
+   display blocks .Bd/.Ed nested to any depth, headers .Ch/.Pt/.Sh/.Ss and
    .Tc with any arguments, LaTeX fragment mode: all brace groups of the output balance, none is closed before it is
    opened, and the compilation is panic-free (Proofs/FragBL.v, Proofs/FragHL.v) *)
 Require FragHL.
@@ -40,6 +42,10 @@ Theorem C04_headers_balanced_partial : forall fuel wd main bs, Forall FragHL.in_
   TokL.runL (St.flat (St.wout s)) (TokL.LTxt, 0%nat) = (TokL.LTxt, 0%nat) /\ In (St.curfile s, St.flat (St.wout s)) (St.files s).
 Proof. exact FragHL.C04_headers_balanced. Qed.
 Print Assumptions C04_headers_balanced_partial.
+(* an url written into \url{...} or \href{...}{...} never opens or closes a group and never escapes the closing brace *)
+Require FragBL.
+Theorem C04_url_is_brace_neutral : forall u d, TokL.runL (MBase.latex_url u) (TokL.LTxt, d) = (TokL.LTxt, d).
+Proof. exact FragBL.latex_url_textual. Qed.
 (* inside processInlineMacros the same holds: the title handed back is brace-balanced *)
 Require InvIL.
 Theorem C04_inline_titles_balanced : forall a s, Exp.fmt s = Exp.FL -> St.asis s = false -> St.inl s = false -> InvL.markup_okL (St.mtags s) -> St.bf s = None -> St.has_cur s = true ->
